@@ -42,11 +42,11 @@ ASSUMPTIONS = [
     "problems are capped in size (ground actions / fluents) and plans in length (k=3 quick, 4 thorough)",
 ]
 SHARD_TIMEOUT = {"quick": 600, "thorough": 5400}
-N = {"quick": 1280, "thorough": 48000}
+N = {"quick": 640, "thorough": 12800}
 
 
 def plan(tier, seed):
-    return simple_plan(PROPERTY, tier, seed, N["quick"], N["thorough"], shards_quick=16, shards_thorough=16)
+    return simple_plan(PROPERTY, tier, seed, N["quick"], N["thorough"], shards_quick=8, shards_thorough=16)
 
 
 def run_shard(spec, res):
@@ -110,7 +110,8 @@ def judge(prep, res):
         }
         steps, err = H.map_back_plan(prep, fp)
         if err is not None:
-            res.violation(f"{tn}:map-back-not-an-instance-of-an-original-action", f"compiled plan {fp.names()}: {err}", base)
+            mech = f"{tn}:map-back-raises:" + err.split()[2].rstrip(":") if err.startswith("map-back raises") else f"{tn}:map-back-not-an-instance-of-an-original-action"
+            res.violation(mech, f"{tn}: compiled plan {fp.names()} is valid for the compiled problem, but {err}", {**base, "expected": "a plan of the original problem", "observed": err})
             return
         try:
             verdict, info = validate(prep.pb, steps)
